@@ -328,9 +328,19 @@ pbt::GenCfg cfgFor(const std::string& prop, const hc::Args& a){
 
 } // namespace
 
+#ifdef FUZZ_TARGET
+#include "../model/bytes.hpp"
+extern "C" int LLVMFuzzerTestOneInput(const uint8_t* data, size_t size){
+    static const std::string prop = getenv("VERIF_FUZZ_PROP") ? getenv("VERIF_FUZZ_PROP") : "C09";
+    static const int hmaxF[5] = {0, 7, 5, 4, 3};
+    const FmmCase c = fz::decode(data, size, Dim, hmaxF[Dim], true);
+    return hc::fuzzOne(c, [&](const FmmCase& x){ return propTsm(x, prop); });
+}
+#else
 int main(int argc, char** argv){
     hc::Args a = hc::parseArgs(argc, argv);
     if(a.prop.empty()){ std::cerr << "usage: --prop Cxx ...\n"; return 2; }
     const std::string prop = a.prop;
     return hc::runMain(a, cfgFor(prop, a), [&](const FmmCase& c){ return propTsm(c, prop); });
 }
+#endif
